@@ -61,7 +61,9 @@ class ReadWritePropertyServices(Capability):
                 raise PropertyError(apdu.propertyIdentifier)
 
             # change atomic values into something encodeable
-            if issubclass(datatype, Atomic) or (issubclass(datatype, (Array, List)) and isinstance(value, list)):
+            # (an element of an array of bit strings is a list as well: only a
+            # value read without an array index is a whole array or list)
+            if issubclass(datatype, Atomic) or (issubclass(datatype, (Array, List)) and isinstance(value, list) and (apdu.propertyArrayIndex is None)):
                 value = datatype(value)
             elif issubclass(datatype, Array) and (apdu.propertyArrayIndex is not None):
                 if apdu.propertyArrayIndex == 0:
@@ -161,7 +163,9 @@ def read_property_to_any(obj, propertyIdentifier, propertyArrayIndex=None):
         raise ExecutionError(errorClass='property', errorCode='unknownProperty')
 
     # change atomic values into something encodeable
-    if issubclass(datatype, Atomic) or (issubclass(datatype, (Array, List)) and isinstance(value, list)):
+    # (an element of an array of bit strings is a list as well: only a
+    # value read without an array index is a whole array or list)
+    if issubclass(datatype, Atomic) or (issubclass(datatype, (Array, List)) and isinstance(value, list) and (propertyArrayIndex is None)):
         value = datatype(value)
     elif issubclass(datatype, Array) and (propertyArrayIndex is not None):
         if propertyArrayIndex == 0:
